@@ -140,12 +140,53 @@ static void trace_reset(const char *id, const char *cls, int damaged, const uint
     fprintf(f, "]}\n");
     fclose(f);
 }
+static void note_current(const char *cls, const char *desc, const uint8_t *b, size_t n);
 static NvmModule *traced_load(const char *id, const char *cls, int damaged, const uint8_t *b, size_t n) {
+    char nd[300];
+    snprintf(nd, sizeof nd, "\"%s\"", id);
+    note_current(cls, nd, b, n);
     trace_reset(id, cls, damaged, b, n);
     trace_on();
     NvmModule *m = nvm_deserialize(b, (uint32_t)n);
     trace_off();
     return m;
+}
+
+/* ------------------------------------------------------------ crash capture */
+/* The loader runs in this process.  If it crashes on a damaged file, that is an observation the check must
+ * report (with the file), not a failure of the probe: the handler saves the buffer being loaded, prints a
+ * {"k":"crash"} record and exits with status 3. */
+static const uint8_t *g_cur;
+static size_t g_curn;
+static const char *g_curcls = "";
+static char g_curdesc[320] = "null";
+static char g_crashdir[3800] = ".";
+static void note_current(const char *cls, const char *desc, const uint8_t *b, size_t n) {
+    g_cur = b; g_curn = n; g_curcls = cls;
+    snprintf(g_curdesc, sizeof g_curdesc, "%s", desc && desc[0] ? desc : "null");
+}
+static void crash_handler(int sig) {
+    char path[4096], msg[4800];
+    snprintf(path, sizeof path, "%s/crash-%d.nvm", g_crashdir, (int)getpid());
+    int fd = open(path, O_WRONLY | O_CREAT | O_TRUNC, 0644);
+    if (fd >= 0) { if (g_cur && g_curn) { ssize_t w = write(fd, g_cur, g_curn); (void)w; } close(fd); }
+    int len = snprintf(msg, sizeof msg, "\n{\"k\":\"crash\",\"signal\":%d,\"cls\":\"%s\",\"desc\":%s,\"len\":%zu,\"path\":\"%s\"}\n",
+                       sig, g_curcls, g_curdesc, g_curn, path);
+    ssize_t w = write(1, msg, (size_t)len);
+    (void)w;
+    _exit(3);
+}
+static void install_crash_handler(const char *dir) {
+    snprintf(g_crashdir, sizeof g_crashdir, "%s", dir);
+    struct sigaction sa;
+    memset(&sa, 0, sizeof sa);
+    sa.sa_handler = crash_handler;
+    sigaction(SIGABRT, &sa, NULL);          /* also the end of a sanitizer report (abort_on_error=1) */
+    sigaction(SIGFPE, &sa, NULL);
+#if !defined(__SANITIZE_ADDRESS__)
+    sigaction(SIGSEGV, &sa, NULL);
+    sigaction(SIGBUS, &sa, NULL);
+#endif
 }
 
 static void print_module(FILE *o, const NvmModule *m) {
@@ -202,6 +243,13 @@ static int cmd_model(const char *img, const char *faults, const char *trace) {
     char *txt = (char *)read_all(faults, &fl);
     txt[fl] = 0;
     g_trace = trace;
+    {
+        char dir[3800];
+        snprintf(dir, sizeof dir, "%s", img);
+        char *sl = strrchr(dir, '/');
+        if (sl) *sl = 0; else snprintf(dir, sizeof dir, ".");
+        install_crash_handler(dir);
+    }
     NvmModule *m = traced_load("image", "good", 0, f, n);
     printf("{\"k\":\"image\",\"loaded\":%s,\"crc\":%u", m ? "true" : "false", nvm_crc32(f + NVM_HEADER_SIZE, (uint32_t)(n - NVM_HEADER_SIZE)));
     if (m) { printf(",\"mod\":"); print_module(stdout, m); nvm_module_free(m); }
@@ -217,11 +265,14 @@ static int cmd_model(const char *img, const char *faults, const char *trace) {
         uint8_t *d = apply_desc(f, n, cls, a, b, c, &dn);
         char id[64];
         snprintf(id, sizeof id, "m%d", idx);
+        note_current(cls, line, d, dn);
         NvmModule *dm = (trace && (idx % 7) == 0) ? traced_load(id, cls, 1, d, dn) : nvm_deserialize(d, (uint32_t)dn);
         uint32_t crc = dn > NVM_HEADER_SIZE ? nvm_crc32(d + NVM_HEADER_SIZE, (uint32_t)(dn - NVM_HEADER_SIZE)) : 0;
-        printf("{\"k\":\"fault\",\"i\":%d,\"len\":%zu,\"crc\":[%u,%u],\"loaded\":%s,\"last4\":[%u,%u,%u,%u]}\n", idx, dn,
+        char accp[4096] = "";
+        if (dm) { snprintf(accp, sizeof accp, "%s.accepted-%d.nvm", img, idx); write_all(accp, d, dn); }
+        printf("{\"k\":\"fault\",\"i\":%d,\"len\":%zu,\"crc\":[%u,%u],\"loaded\":%s,\"last4\":[%u,%u,%u,%u],\"path\":\"%s\"}\n", idx, dn,
                crc >> 16, crc & 0xFFFF, dm ? "true" : "false",
-               dn >= 4 ? d[dn - 4] : 0, dn >= 4 ? d[dn - 3] : 0, dn >= 4 ? d[dn - 2] : 0, dn >= 4 ? d[dn - 1] : 0);
+               dn >= 4 ? d[dn - 4] : 0, dn >= 4 ? d[dn - 3] : 0, dn >= 4 ? d[dn - 2] : 0, dn >= 4 ? d[dn - 1] : 0, accp);
         if (dm) nvm_module_free(dm);
         free(d);
         cJSON_Delete(j);
@@ -241,7 +292,7 @@ static unsigned long g_internal_errors;
 
 static void accepted(int cls, const uint8_t *d, size_t dn, const char *desc) {
     g_cls[cls].accepted++;
-    if (g_saved < 20) {
+    if (g_saved < 4) {
         char p[4096];
         snprintf(p, sizeof p, "%s/accepted-%s-%u.nvm", g_outdir, g_base, g_saved++);
         write_all(p, d, dn);
@@ -251,6 +302,7 @@ static void accepted(int cls, const uint8_t *d, size_t dn, const char *desc) {
 /* the literal statement of the property for one damaged file */
 static void must_refuse(int cls, const uint8_t *d, size_t dn, const char *desc) {
     g_cls[cls].evals++;
+    note_current(g_cls[cls].name, desc, d, dn);
     NvmModule *m = nvm_deserialize(d, (uint32_t)dn);
     if (m) { accepted(cls, d, dn, desc); nvm_module_free(m); }
 }
@@ -262,6 +314,7 @@ static int cmd_exhaust(const char *path, uint64_t seed, const char *tier, unsign
     uint8_t *f = read_all(path, &n);
     int thorough = !strcmp(tier, "thorough");
     g_outdir = outdir;
+    install_crash_handler(outdir);
     const char *slash = strrchr(path, '/');
     g_base = slash ? slash + 1 : path;
     rng_seed(seed, f, n);
@@ -405,6 +458,7 @@ static int cmd_sample(const char *path, uint64_t seed, unsigned per, unsigned ma
     const char *slash = strrchr(path, '/');
     const char *base = slash ? slash + 1 : path;
     rng_seed(seed ^ 0x5eedULL, f, n);
+    install_crash_handler(outdir);
     g_trace = (trace && trace[0] && strcmp(trace, "-")) ? trace : NULL;
     uint64_t bits = 8 * (uint64_t)(n - NVM_HEADER_SIZE);
     char id[300], p[4096];
@@ -566,6 +620,7 @@ static int cmd_hostile(const char *cases, const char *workdir, const char *trace
 int main(int argc, char **argv) {
     g_argc = argc; g_argv = argv;
     crc_tab_init();
+    setvbuf(stdout, NULL, _IOLBF, 0);      /* complete lines reach the reader even if the loader crashes */
     unsetenv(TRACE_ENV);
     if (argc >= 2 && !strcmp(argv[1], "consts")) return cmd_consts();
     if (argc >= 4 && !strcmp(argv[1], "model")) return cmd_model(argv[2], argv[3], argc > 4 ? argv[4] : NULL);
